@@ -2408,6 +2408,45 @@ func monC02(c *child.Ctx, replay json.RawMessage) {
 		}
 		addInput(b, len(kindsSeen) >= 2 || kindsSeen["trunc"])
 	}
+	// periodic messages (a base station's position, its antenna, its biases) sent again
+	// and again, some copies damaged in one payload bit with the CRC bytes as they were,
+	// some in the CRC bytes only: the bytes that went in come out
+	nPer := c.Share(c.Pick(400, 8000))
+	for i := 0; i < nPer; i++ {
+		t := []int{1005, 1006, 1033, 1230, 1013, 1008}[r.Intn(6)]
+		var f []byte
+		if t == 1005 || t == 1006 {
+			f = ref.Frame(ref.EncodeBase(gen.RandBase(r, t), t))
+		} else {
+			f = ref.Frame(gen.RandPayload(r, t, r.Range(8, 60), 0))
+		}
+		var b []byte
+		for j := r.Range(3, 7); j > 0; j-- {
+			g := append([]byte(nil), f...)
+			switch r.Intn(4) {
+			case 0:
+				g[r.Range(5, len(g)-4)] ^= 1 << uint(r.Intn(8))
+			case 1:
+				g[len(g)-1-r.Intn(3)] ^= 1 << uint(r.Intn(8))
+			}
+			b = append(b, g...)
+			if r.Chance(1, 3) {
+				b = append(b, gen.Junk(r).Bytes...)
+			}
+		}
+		addInput(b, true)
+	}
+	// a long session with dozens of long runs of other data (1 to 8 KiB each) between
+	// frames - a hundred kilobytes and more in all, so that whatever is stored in blocks
+	// of some round size meets its block boundaries at every possible fill level
+	if c.Batch%4 == 3 || c.Thorough() {
+		var b []byte
+		for len(b) < 150000 {
+			b = append(b, gen.RandFrame(r).Bytes...)
+			b = append(b, gen.NoD3(r.Bytes(r.Range(1030, 8192)))...)
+		}
+		addInput(b, true)
+	}
 	cfgPerInput := c.Pick(4, 12)
 	for i, in := range inputs {
 		for j := 0; j < cfgPerInput; j++ {
